@@ -100,12 +100,13 @@ impl<M> WeakSender<M> {
 }
 impl<M> OwnView for Sender<M> { open spec fn own(&self) -> Own { Own { none: false, chan: self.chan(), s_tx: true, s_force: true, w_tx: false, w_force: false, mixed: false } } }
 impl<M> WeakSender<M> {
-    // an explicit upgrade puts a STRONG Sender into the hands of the caller: recorded, so that a timer body that holds one across its
-    // sleep (and thereby keeps its own actor alive for a period) breaks the timer pattern
+    // an explicit upgrade puts a STRONG Sender into the hands of the caller for as long as the binding lives. Harmless between a sleep and
+    // the next one (that is what `try_force_send` does inside); a binding that is still in scope at a sleep keeps the timer's own actor
+    // alive for a period: rule G7 (`nohold` in the unit file) marks such a site with `hx_strong_handle_held_across_a_sleep()`
     #[verifier::external_body]
     pub fn upgrade_sender(&self, Tracked(w): Tracked<&mut World>) -> (r: Option<Sender<M>>)
         ensures r is Some ==> r->0.chan() == self.chan() && r->0.cid() == self.cid(),
-                r is Some ==> emits(old(w), final(w), Ev::Upgraded { chan: self.chan() }), r is None ==> same_world(old(w), final(w))
+                same_world(old(w), final(w))
     { unimplemented!() }
 }
 impl<M> Sender<M> {
@@ -157,3 +158,7 @@ impl VFuture for SenderSendFut {
 impl<M> Sender<M> {
     #[verifier::external_body] pub fn send__fut(&self, msg: M) -> (r: SenderSendFut) ensures r.chan() == self.chan() { unimplemented!() }
 }
+// rule G7: the marker's precondition is the obligation (never satisfiable: the shape itself is the defect)
+pub fn hx_strong_handle_held_across_a_sleep()
+    requires false,                                                                            // @ob timer.no-strong-handle-to-the-own-actor-is-held-across-a-sleep C10,C05,C06,C16,C03,C13
+{ }
